@@ -1,11 +1,16 @@
 (* C03 uses the cases and the model instantiation of run/C02Run.v.  Its correspondence is the document
-   part only (to_serial of the HUGR and of the reloaded HUGR); its monitor is mon3. *)
+   part only (to_serial of the HUGR and of the reloaded HUGR); its monitor is mon3.
+   The order in which the live nodes are listed is the writer's choice for C03 (r_ord / r_ord2, found by the harness,
+   checked here: it must hold exactly the live nodes); documents are compared up to the order of the edges array and
+   the writing of the metadata table (serial_sameb). *)
 From Coq Require Import List Bool.
 From HV Require Export run.C02Run.
+Definition M_to_serial_in (L : list nat) (h : hugrT) : option serialT :=
+  if order_admissible_b h L then to_serial_in o_enc o_ndp md_is_nil L h else None.
 Definition corr3_rt (r : rt) : bool :=
-  option_eqb serial_eqb (M_to_serial (r_h r)) (r_doc r) &&
+  option_eqb serial_sameb (M_to_serial_in (r_ord r) (r_h r)) (r_doc r) &&
   match r_load r with
-  | Some (h2, s2) => option_eqb serial_eqb (M_to_serial h2) s2
+  | Some (h2, s2) => option_eqb serial_sameb (M_to_serial_in (r_ord2 r) h2) s2
   | None => true
   end.
 Definition corr (c : case) : bool :=
